@@ -119,6 +119,37 @@ func main() {
 			}
 		}
 	}
+	// Recovery by an explored actor (common.ExploredRecovery): after the crash the locks expire and a
+	// reader arrives as an actor, so the order in which its resolver's status checks are answered is explored.
+	for _, er := range common.ExploredRecovery(run.Thorough(), keys) {
+		er := er
+		mk := func() *txnh.TxnScenario {
+			sc := er.Make()
+			sc.CheckFn = func(s *txnh.TxnScenario, x *sched.Exec) []sched.Violation {
+				v := s.H.Txns[0]
+				if !s.W.Crashed(0) && (v.Outcome == "open" || v.Outcome == "unstarted") {
+					return nil
+				}
+				out, _, t := common.AuditVictimR(s, x, 0, "", "reader-gc")
+				if t != nil {
+					t.Splits = er.Splits
+					for _, sv := range txnh.AuditSI(s.H, t) {
+						sv.Key = "si:" + sv.Key
+						out = append(out, sv)
+					}
+				}
+				return out
+			}
+			return sc
+		}
+		specs[er.Name] = mk
+		jobs = append(jobs, sched.Job{Name: er.Name, Run: func(dl time.Time) sched.Report {
+			sc := mk()
+			x := &sched.Explorer{Sc: sc, B: sched.Bounds{P: 1, F: 1, Horizon: 500, EarlyTimers: false, Deadline: dl}}
+			x.Outcome = func(e *sched.Exec) string { return sc.H.Txns[0].Outcome + fmt.Sprint(len(sc.W.Log())) }
+			return x.Explore(false)
+		}})
+	}
 	if common.HandleReplay(run, jobs, func(name string) sched.Scenario {
 		if mk, ok := specs[name]; ok {
 			return mk()
